@@ -1,0 +1,21 @@
+//go:build verif
+
+package fsm
+
+// Test-only hook for the external verification harness in /verif (build tag `verif`): add-only, no behaviour change.
+
+// VerifSlashTracker returns a deep copy of the per-block slash tracker (validator address hex -> committee -> slashed percent)
+func (s *StateMachine) VerifSlashTracker() map[string]map[uint64]uint64 {
+	out := map[string]map[uint64]uint64{}
+	if s.slashTracker == nil {
+		return out
+	}
+	for addr, m := range *s.slashTracker {
+		cp := make(map[uint64]uint64, len(m))
+		for chainId, percent := range m {
+			cp[chainId] = percent
+		}
+		out[addr] = cp
+	}
+	return out
+}
